@@ -1,4 +1,4 @@
-SPECIFICATION Spec
+SPECIFICATION ItemSpec
 CONSTANTS Configs <- MCConfigsQ OptNames <- MCOptNames SecNames <- MCSecNames Values <- MCValues
           Decos <- MCDecosP MaxNodes = 2 MaxDepth = 2
 VIEW View
